@@ -659,6 +659,10 @@ class C04(Prop):
                 if m == "v1s" and not is_utf8(b + t):
                     continue
                 cases.append("%s %s" % (m, hx(b + t)))
+            if m != "v1s" and len(b) % 32 == 0:
+                # a trailer so large that the whole buffer exceeds 65 551 bytes (and wraps 16-bit arithmetic)
+                big = (65524, 65530, 65535)[(len(b) // 32) % 3]
+                cases.append("%s %s" % (m, expr(b, "fill:%d:%02x" % (big, len(b) % 251))))
             if cand is not None and (m != "v1s" or is_utf8(cand)):
                 cases.append("%s %s" % (m, hx(cand)))
             yield ("trail:" + ("cand" if cand is not None else "nocand"), cases)
